@@ -139,6 +139,10 @@ func runSSCrash(r *common.Run) {
 				// one counter per distinct layout: the merged evidence then has as
 				// many layout_* keys as there were distinct post-crash layouts
 				lay := strings.Join(res.layout, "|")
+				if res.crashed && r.WantSample() && k%5 == 2 {
+					r.Sample(map[string]interface{}{"scenario": sc.String(), "crash_at_fs_op": k, "of_ops": count.n,
+						"site": res.site.Kind + " @ " + res.site.Class, "layout_after_cleanup": res.layout})
+				}
 				layouts[lay] = true
 				r.Count("layout_"+common.Hash(lay)[:8], 1)
 			}
